@@ -26,15 +26,16 @@ def run(tier):
         doors[o["door"]] = doors.get(o["door"], 0) + 1
         if not o["ok"]:
             sc = o["scenario"]
-            c.violation("%s address of %s bytes, %s encoding, entered through the %s door: model says %s, real code: %s" %
-                        (sc["kind"], sc["n"], sc["style"], o["door"], sc["expect"], o["outcome"]), o)
+            c.violation("%s address (%s) of %s bytes, %s encoding, entered through the %s door: model says %s, real code: %s" %
+                        (sc["kind"], sc.get("shape"), sc["n"], sc["style"], o["door"], sc["expect"], o["outcome"]), o)
     c.add("address_cases_replayed", len(rows))
     c.cov["cases_per_door"] = doors
     if not rows:
         raise vlib.ToolError("nothing replayed")
     c.assumptions += [
         "names enter through the client's real doors: SOCKS5 request (0..255 bytes, incl. multi-byte UTF-8), HTTP request line / CONNECT (1..900 bytes; longer lines exceed the 1024-byte sniff buffer and are refused there), local SOCKS5-UDP datagram",
-        "names that are not valid UTF-8 are not generated (String::from_utf8_unchecked on them is undefined behaviour that does not surface as an outcome)",
+        "host names come in four shapes: ASCII, well-formed two- and three-byte UTF-8 characters (fewer characters than bytes; all doors), and bytes that are no well-formed UTF-8 (SOCKS5 doors only: the HTTP doors take text); IPv4 / IPv6 literals in the special ranges (unspecified, loopback, IPv4-compatible, IPv4-mapped, link-local, multicast); ports 0, 1, 255, 256, 0x0d0a, 0xff00, 65535 besides the usual ones",
+        "what a door hands on is compared byte by byte (kind, host bytes, port) with what was asked for, before the encoder sees it",
     ]
     return c.finish()
 
